@@ -1613,3 +1613,42 @@ func isSignedMinV[T Integer](v T) bool {
 }
 
 func SafeLeftShift[T Integer](val T, shift uint8) (T, error) {''')])
+# C20: deferred bookkeeping in the worker goroutine
+M('C20','silent-worker-bookkeeping-deferred-in-order','app/daemon/daemon.go','''		backgroundWorker(worker.ctx)
+
+		// first we need to finish the waitgroup, otherwise stopWorkers could
+		// already have acquired the lock and wait until all wait groups are done.
+		shutdownOrderWaitGroup.Done()
+
+		// now we can acquire the lock and cleanup the worker
+		d.cleanupWorker(name)
+
+		// only after cleanup is finished, we can unset the running flag,
+		// otherwise there is a race condition between starting another worker with the same name
+		// and a worker that is scheduled for cleanup.
+		worker.running.Store(false)
+''','''		defer worker.running.Store(false)
+		defer d.cleanupWorker(name)
+		defer shutdownOrderWaitGroup.Done()
+
+		backgroundWorker(worker.ctx)
+''','',silent=True)
+M('C20','worker-bookkeeping-deferred-wrong-order','app/daemon/daemon.go','''		backgroundWorker(worker.ctx)
+
+		// first we need to finish the waitgroup, otherwise stopWorkers could
+		// already have acquired the lock and wait until all wait groups are done.
+		shutdownOrderWaitGroup.Done()
+
+		// now we can acquire the lock and cleanup the worker
+		d.cleanupWorker(name)
+
+		// only after cleanup is finished, we can unset the running flag,
+		// otherwise there is a race condition between starting another worker with the same name
+		// and a worker that is scheduled for cleanup.
+		worker.running.Store(false)
+''','''		defer shutdownOrderWaitGroup.Done()
+		defer d.cleanupWorker(name)
+		defer worker.running.Store(false)
+
+		backgroundWorker(worker.ctx)
+''','worker/done-cleanup-order')
